@@ -24,6 +24,7 @@ func c15(r *core.Run) {
 	r.Explanation = "Static rules over storage.MsgInitProvider / MsgShutdownProvider and a closed-world census: the locked coins and the recorded Collateral.Amount come from the single source Param(CollateralPrice), paid by and keyed by the signer, only when no provider record exists; the refund is exactly the loaded record's amount (never the current price), paid to the signer, and every committing path after it deletes the collateral record and the provider; no other handler or block path writes collateral records or names the collateral module account in a bank call; the account is registered in the app's module-account permissions; bank errors propagate."
 	r.Assumptions = []string{T1, T3, T4, T6}
 	r.NotDecided = []string{"the numeric invariant escrow balance = Σ collaterals (follows from R1–R4 given T3)"}
+	r.Rule("C15/R8", "a recorded collateral stays findable: the storage key builders (collateral and provider keys among them) still produce the on-disk layout recorded for the pinned tree — a changed layout without a migration makes shutdown find no record and refund nothing")
 	r.Rule("C15/R7", "nothing else pays into the escrow: the account name the application wires into the storage keeper as its fee collector is the chain's fee collector, not the collateral account (the staker share of a storage purchase is sent to that name)")
 	r.Rule("C15/R6", "collateral records are enumerated exhaustively wherever they are listed (genesis export): no pagination helper, no iterator loop left early — a record dropped from the export leaves its collateral in the escrow with nobody entitled to it after a restart from genesis")
 	r.Rule("C15/R1", "lock = record: in InitProvider the coin amount and Collateral.Amount depend only on Param(CollateralPrice); payer and keys ⊵ signer; all effects behind Found(provider)=false")
@@ -55,6 +56,7 @@ func c15(r *core.Run) {
 	} else {
 		r.Check(v == "fee_collector", "C15/R7", "app:storage-keeper:fee-collector-name", where, "storage keeper's fee collector = \"fee_collector\"", "the application wires the account \""+v+"\" into the storage keeper as its fee collector: the staker share of every unreferred storage purchase is paid into that account instead of the chain's fee collector (into the collateral escrow if it is that account, which then holds more than the recorded collaterals)")
 	}
+	r.Floor("C15/R8", keyLayoutFrozen(r, "C15/R8", "storage"), 8, "storage key builders with a comparable layout")
 	hs, err := p.Handlers()
 	if err != nil {
 		r.Undecided("C15/R1", "handlers", "", err.Error())
